@@ -32,7 +32,8 @@ ASSUMPTIONS = [
     "every history is executed in its own forked copy of a process that has never typed anything (no reset function is trusted)",
 ]
 DYNAMIC = ["dyn-child-of-YTKEntry", "dyn-typed-child", "dyn-same-name-YTKPart1", "dyn-generic-BsaI-module",
-           "dyn-structure-override", "dyn-vector-part", "dyn-grandchild-of-part"]
+           "dyn-structure-override", "dyn-vector-part", "dyn-grandchild-of-part", "dyn-blunt-cutter-child", "dyn-no-cutter-child"]
+UNUSABLE = {"dyn-blunt-cutter-child": "YTKEntry", "dyn-no-cutter-child": "YTKEntry"}     # witnesses are those of the parent
 
 
 def bounds(tier):
@@ -73,6 +74,12 @@ def define(name):
         return type(str("MyVectorPart"), (ytk.YTKPart, ytk.YTKCassetteVector), {"signature": ("ACGT", "TTGA")})
     if name == "dyn-grandchild-of-part":
         return type(str("MyPart3"), (ytk.YTKPart3,), {"signature": ("TATG", "GGGG")})
+    # children that cannot be used at all: whatever the library answers when they are asked first, it answers after any history
+    if name == "dyn-blunt-cutter-child":
+        from Bio.Restriction import EcoRV
+        return type(str("MyBluntEntry"), (ytk.YTKEntry,), {"cutter": EcoRV})
+    if name == "dyn-no-cutter-child":
+        return type(str("MyCutterlessEntry"), (ytk.YTKEntry,), {"cutter": NotImplemented})
     raise KeyError(name)
 
 
@@ -101,6 +108,8 @@ _inst = {}
 
 
 def own_instance(cls, name):
+    if name in UNUSABLE:
+        cls, name = gen.class_by_name(UNUSABLE[name]), UNUSABLE[name]
     if name not in _inst:
         from . import c16
         _inst[name] = c16.kit_instances(cls)[0][0]
@@ -113,6 +122,8 @@ _long = {}
 def long_instance(cls, name, illegal):
     """instance of the class structure whose wildcard run is a 96-letter word; `illegal` puts one more cutter site in its middle
     (both spellings share their first 60 and last letters: look-alikes for anything that compares or caches by prefix)"""
+    if name in UNUSABLE:
+        cls, name = gen.class_by_name(UNUSABLE[name]), UNUSABLE[name]
     key = (name, illegal)
     if key not in _long:
         g = gen.geometry_of(cls.cutter)
@@ -155,14 +166,14 @@ def answers(cls, wits, shared=None):
     for wid, s in wits:
         plain = {"lin": "linear", "LIN": "LINEAR", "sr": "Circular"}.get(wid.split(":", 1)[0]) if ":" in wid else None
         if plain and not wid.startswith("inst:"):
-            e = cls(SeqRecord(Seq(s), id="w", annotations={"topology": plain}))
             try:
+                e = cls(SeqRecord(Seq(s), id="w", annotations={"topology": plain}))
                 out[wid] = [True, str(e.overhang_start()), str(e.overhang_end())] if e.is_valid() else [False]
             except Exception as ex:
                 out[wid] = ["raises", type(ex).__name__]
             continue
-        e = cls(shared.get(wid) or CircularRecord(Seq(s), id="w"))
         try:
+            e = cls(shared.get(wid) or CircularRecord(Seq(s), id="w"))
             v = e.is_valid()
             if v:
                 out[wid] = [True, str(e.overhang_start()), str(e.overhang_end()), str(e.target_sequence().seq)]
@@ -175,9 +186,12 @@ def answers(cls, wits, shared=None):
 
 def validate(cls, name, which="own"):
     s = own_instance(cls, name) if which == "own" else long_instance(cls, name, which == "long-illegal")
-    e = cls(CircularRecord(Seq(s), id="p"))
-    if e.is_valid():
-        e.overhang_start()
+    try:
+        e = cls(CircularRecord(Seq(s), id="p"))
+        if e.is_valid():
+            e.overhang_start()
+    except (ValueError, NotImplementedError, AttributeError, TypeError):
+        pass            # a class that cannot be used at all (unusable cutter): the call itself is the history step
 
 
 def cache_state():
